@@ -308,31 +308,32 @@ type getOutcome struct {
 
 // Obs is the observable projection compared with the specification's state.
 type Obs struct {
-	Disk    []int          `json:"disk"`
-	PoolLen int            `json:"poolLen"`
-	Handed  []int          `json:"handed"`
-	Sched   string         `json:"sched,omitempty"`
-	Gen     []int          `json:"gen"`  // spec worker ids parked in generateFn
-	Save    map[string]int `json:"save"` // spec worker id -> value parked in Save
-	Alive   int            `json:"alive"`
-	Blocked int            `json:"blocked"` // workers blocked delivering into the full channel
+	Disk    []int             `json:"disk"`
+	PoolLen int               `json:"poolLen"`
+	Handed  []int             `json:"handed"`
+	Sched   string            `json:"sched,omitempty"`
+	Gen     []int             `json:"gen"`  // spec worker ids parked in generateFn
+	Save    map[string]int    `json:"save"` // spec worker id -> value parked in Save
+	Alive   int               `json:"alive"`
+	Blocked int               `json:"blocked"` // workers blocked delivering into the full channel
 	Getters map[string]string `json:"getters"`
 }
 
 type replay struct {
-	t     *testing.T
-	rep   *kit.Report
-	rig   Rig
-	d     *Driver
-	inc   *Inc
-	inst  Instance
-	size  int
-	incN  int
-	wmap  map[int]int64 // spec worker id -> goid
-	gets  map[int]*getter
-	hand  []int
-	caseX interface{}
-	key   string
+	t       *testing.T
+	rep     *kit.Report
+	rig     Rig
+	d       *Driver
+	inc     *Inc
+	inst    Instance
+	size    int
+	incN    int
+	wmap    map[int]int64 // spec worker id -> goid
+	gets    map[int]*getter
+	hand    []int
+	caseX   interface{}
+	key     string
+	lastCtl string
 }
 
 func ints(v kit.V) []int {
@@ -635,16 +636,18 @@ func (r *replay) boot(readable []int) bool {
 }
 
 // crash abandons the current incarnation: nothing of it touches storage again.
-func (r *replay) crash() {
+func (r *replay) crash() bool {
 	r.inc.dead.Store(true)
 	deadline := time.Now().Add(r.d.wait)
+	var stuckSince time.Time
 	for n := 0; ; {
 		r.d.releaseAllDie()
 		if r.inst != nil && n%16 == 0 {
 			r.inst.Kill()
 		}
 		busy := false
-		if scanWorkers().alive > 0 {
+		ws := scanWorkers()
+		if ws.alive > 0 {
 			busy = true
 		}
 		for _, g := range scan() {
@@ -654,6 +657,20 @@ func (r *replay) crash() {
 		}
 		if !busy {
 			break
+		}
+		// every context was cancelled (Scheduler.stop) and nothing is parked in
+		// the harness any more: a worker that stays blocked in the pool's
+		// select ignores its context
+		if r.inst != nil && r.inst.Sched() != "" && ws.alive == ws.blocked && ws.transient == 0 {
+			if stuckSince.IsZero() {
+				stuckSince = time.Now()
+			} else if time.Since(stuckSince) > 3*time.Second {
+				r.rep.Diverge(r.rig.Name()+":Stop:blocked", "a worker goroutine stays blocked delivering into the full pool after the scheduler cancelled its context",
+					r.caseX, "the worker drops the parameter and terminates", fmt.Sprintf("%d worker goroutine(s) blocked in the pool's select", ws.blocked))
+				return false
+			}
+		} else {
+			stuckSince = time.Time{}
 		}
 		if time.Now().After(deadline) {
 			r.t.Fatalf("verifc39: goroutines of a crashed incarnation did not terminate: %+v", scan())
@@ -669,6 +686,7 @@ func (r *replay) crash() {
 		}
 		break
 	}
+	return true
 }
 
 func (r *replay) waitExit(goid int64) {
@@ -736,7 +754,11 @@ func (r *replay) waitGetter(g int) bool {
 
 func (r *replay) diverge(step kit.V, idx int, field, what string, exp, obs interface{}) {
 	a := step.Get("a").Str()
-	r.rep.Diverge(fmt.Sprintf("%s:%s:%s", r.rig.Name(), a, field),
+	ka := a
+	if step.Get("tau").Bool() && r.lastCtl != "" {
+		ka = r.lastCtl // the controlled step whose consequences are being observed
+	}
+	r.rep.Diverge(fmt.Sprintf("%s:%s:%s", r.rig.Name(), ka, field),
 		fmt.Sprintf("%s (behaviour %s, step %d %s)", what, r.key, idx+1, a),
 		r.caseX, exp, obs)
 }
@@ -832,6 +854,7 @@ func Replay(t *testing.T, rep *kit.Report, rig Rig, cases []kit.V) {
 				}
 			} else {
 				alt = nil
+				r.lastCtl = a
 				switch a {
 				case "WGenerate", "WGenerateNil":
 					p := d.find("gen", r.wmap[w])
@@ -857,12 +880,16 @@ func Replay(t *testing.T, rep *kit.Report, rig Rig, cases []kit.V) {
 					case "WSaveCrash":
 						d.release(p, reply{out: CrashAfter})
 						r.waitExit(p.goid)
-						r.crash()
+						if !r.crash() {
+							return
+						}
 						ok = r.boot(s.Get("r").Ints())
 					}
 				case "Restart":
 					nontrivial = true
-					r.crash()
+					if !r.crash() {
+						return
+					}
 					ok = r.boot(s.Get("r").Ints())
 				case "Stop":
 					nontrivial = true
@@ -928,7 +955,9 @@ func Replay(t *testing.T, rep *kit.Report, rig Rig, cases []kit.V) {
 						nontrivial = true
 						d.release(p, reply{out: CrashAfter})
 						r.waitExit(p.goid)
-						r.crash()
+						if !r.crash() {
+							return
+						}
 						ok = r.boot(s.Get("r").Ints())
 					}
 				default:
@@ -974,6 +1003,8 @@ func Replay(t *testing.T, rep *kit.Report, rig Rig, cases []kit.V) {
 			sample = r.caseX
 		}
 		rep.Eval(k, sample)
-		r.crash()
+		if !r.crash() {
+			return
+		}
 	}
 }
